@@ -220,7 +220,7 @@ def task_history(pl):
 def c14(tier, seed):
     from .props import known_or_violation, log
     ev = report.Evidence('C14', tier, seed, 'other')
-    K, N = (3, 3) if tier == 'quick' else (4, 5)
+    K, N = (3, 3) if tier == 'quick' else (4, 4)
     defs = hist_defs()
     cfgs = ['tc-unsafe'] if tier == 'quick' else ['tc-unsafe', 'sm-safe']
     progs, times = pipeline.build_programs('hist-C14', defs, cfgs, extra=HIST_EXTRA)
@@ -229,6 +229,8 @@ def c14(tier, seed):
     payloads = []
     for c in cfgs:
         for si, ops in enumerate(seqs):
+            if c != cfgs[0] and si % 3 != seed % 3:
+                continue                 # the second configuration runs a seeded third of the histories
             partial = (si % 5 == 4)      # every fifth history runs on a partial lexer (is_prefix must survive morph/clone)
             payloads.append(dict(key=f'{c}/{"".join(map(str, ops))}', mir=progs[c], ops=ops, N=N, partial=partial, budget=300))
         for si, ops in enumerate(seqs_b):
